@@ -422,6 +422,41 @@ theorem from_handle_returns_original (ops1 ops2 : List Op) (x a h : Nat)
   rw [ho] at ho'; simp at ho'; subst ho'
   exact fromHandle_live (inv_run hinv1 ops2) h x a o ((live_def _ _ _).mpr ⟨ho, hoa⟩) (ev.handle x a hk0)
 
+/-! ### Tie to the statement order of the C source (`Generated/OwnershipSteps.lean`, re-extracted
+from `_cffi_backend.c` by `translate/c21_steps.py` on every run) -/
+
+open CffiVerif.Generated.OwnershipSteps in
+/-- **The model's "empty the slots and mark, then call" is the order of the source**: executing the
+statements of `cdatagcp_finalize` as they stand in `_cffi_backend.c` on a wrapper with full slots
+makes exactly one call of `gcp_finalize`, with the original destructor and origobj, at a moment when
+both slots are already empty; `cdatagcp_dealloc` makes its one call after the wrapper is
+deallocated, with the values saved before; and `cdata_exit` dispatches per cdata type to what
+`release` does for that kind. -/
+theorem release_order_is_source :
+    finRun cdatagcp_finalize = modelReleaseRun ∧
+    finRun cdatagcp_dealloc = modelDeallocRun ∧
+    (∀ t, sourceDispatch t = some (modelDispatch t)) := by
+  refine ⟨by decide, by decide, ?_⟩
+  intro t; cases t <;> decide
+
+/-- ... and the model really has that order: after the part of `ffi.release(x)` that precedes the
+destructor call, the wrapper `w` whose destructor is about to run is already emptied and marked. -/
+theorem model_release_marks_then_calls (s : State) (x w : Nat) (l : List Nat)
+    (h : (release s x).2 = .ok (w :: l)) :
+    ∃ o, (release s x).1.objs w = some o ∧ o.kind = .gcp none none ∧ o.released = true :=
+  release_marks h
+
+open CffiVerif.Generated.OwnershipSteps in
+/-- `ffi.gc(x, None)`, handle deallocation, `new_handle`, `from_handle`: the statements the model
+relies on, in the order of the source (type check before `Py_CLEAR`; the handle's address is the
+handle object and `from_handle` reads the stored object back after checking the handle is live). -/
+theorem handle_and_gc_none_steps_are_source :
+    gc_none = [.typeCheckWrapperElseTypeError, .clearDestructor, .returnNone] ∧
+    handle_dealloc = [.untrack, .decrefStored, .dealloc] ∧
+    new_handle = [.allocHandle, .addressIsObject, .increfStored, .storeObject, .returnHandle] ∧
+    from_handle = [.addressToObject, .checkLiveHandleElseFatal, .returnStored] := by
+  decide
+
 /-! ### Non-vacuity: concrete histories that exercise the hypotheses -/
 
 -- ids: 0 = plain cdata, 1 = destructor object, 2 = the gc wrapper
